@@ -76,8 +76,12 @@ func walkPages(fetch pageFetch, limit uint64, mode string, countTotal bool, maxP
 		}
 		all = append(all, items...)
 		if mode == "offset" {
-			off += limit
-			if len(items) == 0 || uint64(len(items)) < limit {
+			step := limit
+			if step == 0 { // "no limit given": the node serves pages of query.DefaultLimit
+				step = query.DefaultLimit
+			}
+			off += step
+			if len(items) == 0 || uint64(len(items)) < step {
 				break
 			}
 		} else {
@@ -101,7 +105,13 @@ func runC20(c *fw.Ctx) {
 		return
 	}
 	defer e.L.Cleanup()
-	_ = g
+	if c.Case%8 == 5 {
+		c20Enlarge(c, e, g)
+		if e.Halted != "" {
+			c.Count("halted_histories", 1)
+			return
+		}
+	}
 	L := e.L
 	hashBefore := append([]byte(nil), L.App.LastCommitID().Hash...)
 	digBefore := L.SnapshotStores(L.QueryCtx(), lab.StoreNames).Digest()
@@ -165,9 +175,12 @@ func checkList(c *fw.Ctx, name, filter string, expected []listItem, fetch pageFe
 	if n > 6 {
 		limits = append(limits, uint64(n)-1, uint64(n/2))
 	}
+	if n > 100 { // around the SDK's default page size: 0 means "default limit" (100)
+		limits = []uint64{7, 99, 100, 101, 150, uint64(n) - 1, uint64(n), uint64(n) + 1, 500, 0}
+	}
 	seenL := map[uint64]bool{}
 	for _, limit := range limits {
-		if limit == 0 || seenL[limit] {
+		if (limit == 0 && n <= 100) || seenL[limit] {
 			continue
 		}
 		seenL[limit] = true
@@ -310,17 +323,29 @@ func c20WalkAll(c *fw.Ctx, e *Env, ctx sdk.Context) {
 		for _, a := range wl.Addresses {
 			got[ownerHex(a)]++
 		}
+		var cands []sdk.AccAddress
 		for _, a := range L.Accts {
-			res, err := ek.Whitelisted(g, &enttypes.QueryWhitelistedRequest{Address: a.Addr.String()})
+			cands = append(cands, a.Addr)
+		}
+		cands = append(cands, e.ExtraAddrs...)
+		known := 0
+		for _, a := range cands {
+			res, err := ek.Whitelisted(g, &enttypes.QueryWhitelistedRequest{Address: a.String()})
 			c.Count("items_compared", 1)
 			if err != nil {
 				c.Violate("point-query-error", "Whitelisted", "%v", err)
 				continue
 			}
-			n := got[ownerHex(a.Addr.String())]
+			n := got[ownerHex(a.String())]
 			if (res.Whitelisted && n != 1) || (!res.Whitelisted && n != 0) {
-				c.Violate("list-missing-item", "Whitelist", "address %s: Whitelisted=%v but listed %d times", a.Addr, res.Whitelisted, n)
+				c.Violate("list-missing-item", "Whitelist", "address %s: Whitelisted=%v but listed %d times", a, res.Whitelisted, n)
 			}
+			if res.Whitelisted {
+				known++
+			}
+		}
+		if len(wl.Addresses) != known {
+			c.Violate("list-foreign-item", "Whitelist", "the whitelist lists %d addresses, %d of the addresses ever whitelisted in this history answer Whitelisted=true", len(wl.Addresses), known)
 		}
 		c.Count("page_walks", 1)
 	}
@@ -404,16 +429,21 @@ func c20WalkAll(c *fw.Ctx, e *Env, ctx sdk.Context) {
 	// ---- streams: expected from point queries over every (sender, receiver) pair of accounts
 	var allS []listItem
 	bySender, byRecv := map[string][]listItem{}, map[string][]listItem{}
+	var parties []sdk.AccAddress
+	for _, a := range L.Accts {
+		parties = append(parties, a.Addr)
+	}
+	parties = append(parties, e.ExtraAddrs...)
 	for _, s := range L.Accts {
-		for _, rc := range L.Accts {
-			res, err := sk.StreamByReceiverSender(g, &streamtypes.QueryStreamByReceiverSenderRequest{ReceiverAddr: rc.Addr.String(), SenderAddr: s.Addr.String()})
+		for _, rc := range parties {
+			res, err := sk.StreamByReceiverSender(g, &streamtypes.QueryStreamByReceiverSenderRequest{ReceiverAddr: rc.String(), SenderAddr: s.Addr.String()})
 			if err != nil {
 				continue
 			}
-			it := listItem{rc.Addr.String() + "<" + s.Addr.String(), res.Stream.Stream.String()}
+			it := listItem{rc.String() + "<" + s.Addr.String(), res.Stream.Stream.String()}
 			allS = append(allS, it)
 			bySender[s.Addr.String()] = append(bySender[s.Addr.String()], it)
-			byRecv[rc.Addr.String()] = append(byRecv[rc.Addr.String()], it)
+			byRecv[rc.String()] = append(byRecv[rc.String()], it)
 		}
 	}
 	render := func(rs []*streamtypes.StreamResult) []listItem {
